@@ -489,13 +489,15 @@ async fn run(_tier: Tier) {
     // short validities make cached nodes expire between queries.
     let mut cfg = Config::new();
     let mut iter_insecure_limit = 100u16;
+    let mut bogus_validity_s = 30u64;
     if sim::chance("cfg.tuned", 1, 2) {
         cfg.set_max_node_cache(*sim::pick("cfg.node_cache", &[100u64, 1, 2]));
         cfg.set_max_nsec3_cache(*sim::pick("cfg.nsec3_cache", &[100u64, 1]));
         cfg.set_max_isig_cache(*sim::pick("cfg.isig_cache", &[1000u64, 1, 3]));
         cfg.set_max_usig_cache(*sim::pick("cfg.usig_cache", &[1000u64, 1, 3]));
         cfg.set_max_validity(Duration::from_secs(*sim::pick("cfg.max_validity", &[604_800u64, 60, 3600])));
-        cfg.set_max_bogus_validity(Duration::from_secs(*sim::pick("cfg.max_bogus_validity", &[30u64, 1, 300])));
+        bogus_validity_s = *sim::pick("cfg.max_bogus_validity", &[30u64, 1, 300]);
+        cfg.set_max_bogus_validity(Duration::from_secs(bogus_validity_s));
         cfg.set_bad_signatures(*sim::pick("cfg.bad_signatures", &[1u8, 2, 8]));
         cfg.set_max_cname_dname(*sim::pick("cfg.max_cname_dname", &[11u8, 3, 100]));
         iter_insecure_limit = *sim::pick("cfg.nsec3_iter_insecure", &[100u16, 100, 3]);
@@ -544,7 +546,13 @@ async fn run(_tier: Tier) {
     // Once an infrastructure response was tampered with, the validator may
     // legitimately remember the resulting bogus delegation for a while
     // (RFC 4035 section 4.7), so later clean answers need not be Secure.
-    let mut cache_poisoned = false;
+    // (A tampered DS / DNSKEY response may leave a bogus node of whatever
+    // lifetime behind; a *failed request* - a transport error - is remembered
+    // for the configured bogus validity and no longer: after that the chain
+    // has to validate again.)
+    let mut poisoned_for_good = false;
+    let mut poisoned_until_ns = 0u64;
+    let mut cache_poisoned;
     for qi in 0..n_queries {
         if sim::stopped() {
             return;
@@ -830,8 +838,14 @@ async fn run(_tier: Tier) {
         }
         let secure = matches!(res, Ok((ValidationState::Secure, _)));
         if infra_applied > 0 {
-            cache_poisoned = true;
+            if infra_harm == Some(Harm::TransportError) {
+                poisoned_until_ns = poisoned_until_ns.max(sim::now_ns() + (bogus_validity_s + 2) * 1_000_000_000);
+                sim::stat("probe.failed_infrastructure_request_remembered_for_a_while");
+            } else {
+                poisoned_for_good = true;
+            }
         }
+        cache_poisoned = poisoned_for_good || sim::now_ns() < poisoned_until_ns;
         // ---- the companions
         for ((cq, ct, cc, c_insecure, _), cres) in comp_jobs.iter().zip(comp_res.iter()) {
             let cstate = match cres {
